@@ -131,7 +131,7 @@ Variable H : chunk -> chunk -> chunk.
 Fixpoint zero_hash (d : nat) : chunk :=
   match d with
   | O => zero_chunk
-  | S d' => H (zero_hash d') (zero_hash d')
+  | S d' => let z := zero_hash d' in H z z
   end.
 
 (* one layer of merkleizeImpl: an odd layer is completed with z = zeroHashes[i] *)
@@ -142,10 +142,11 @@ Fixpoint pairs (z : chunk) (l : list chunk) : list chunk :=
   | a :: b :: r => H a b :: pairs z r
   end.
 
-Fixpoint layers (d : nat) (i : nat) (l : list chunk) : list chunk :=
+(* d layers, the current one completed with z (= zeroHashes[i] at layer i) *)
+Fixpoint layers (d : nat) (z : chunk) (l : list chunk) : list chunk :=
   match d with
   | O => l
-  | S d' => layers d' (S i) (pairs (zero_hash i) l)
+  | S d' => layers d' (H z z) (pairs z l)
   end.
 
 (* merkleizeImpl(dst, input, limit); None = the Go code panics ("count higher than limit") or
@@ -159,7 +160,7 @@ Definition merkleize (cs : list chunk) (limit : N) : option chunk :=
   let depth := N.to_nat (N.log2_up lim) in
   match cs with
   | [] => Some (zero_hash depth)
-  | _ => match layers depth 0 cs with [r] => Some r | _ => None end
+  | _ => match layers depth zero_chunk cs with [r] => Some r | _ => None end
   end.
 
 (* MerkleizeWithMixin *)
@@ -206,9 +207,9 @@ Proof.
     f_equal. f_equal. apply IH; auto. simpl in L. lia.
 Qed.
 
-Lemma layers_inj : forall d i l1 l2, length l1 = length l2 -> layers d i l1 = layers d i l2 -> l1 = l2.
+Lemma layers_inj : forall d z l1 l2, length l1 = length l2 -> layers d z l1 = layers d z l2 -> l1 = l2.
 Proof.
-  induction d; simpl; intros i l1 l2 L E; auto.
+  induction d; simpl; intros z l1 l2 L E; auto.
   apply IHd in E; [|apply pairs_length; auto].
   eapply pairs_inj; eauto.
 Qed.
@@ -237,8 +238,8 @@ Proof.
     + destruct cs1 as [|a r1].
       * destruct cs2; [reflexivity|discriminate].
       * destruct cs2 as [|a' r2]; [discriminate|].
-        destruct (layers (N.to_nat (N.log2_up lim)) 0 (a :: r1)) as [|x [|y t]] eqn:L1; try discriminate.
-        destruct (layers (N.to_nat (N.log2_up lim)) 0 (a' :: r2)) as [|x' [|y' t']] eqn:L2; try discriminate.
+        destruct (layers (N.to_nat (N.log2_up lim)) zero_chunk (a :: r1)) as [|x [|y t]] eqn:L1; try discriminate.
+        destruct (layers (N.to_nat (N.log2_up lim)) zero_chunk (a' :: r2)) as [|x' [|y' t']] eqn:L2; try discriminate.
         inversion E1; inversion E2; subst.
         eapply layers_inj; [exact L|]. rewrite L1, L2. reflexivity.
 Qed.
